@@ -21,7 +21,7 @@ RulesOKFor(t) ==
   LET syms == SetToSeq(FreeSyms(t))
       U == Rows(Len(syms))
       env == InputEnv(syms, U)
-      n == Canon(t)
+      n == CanonE(t)
       m == Sem(t, env, U)
       Bad(st, o) == IF SemN(o, env, U) # m THEN "Sound"
                     ELSE IF ~(FreeN(o) \subseteq FreeSyms(t)) THEN "NoNewSyms"
